@@ -470,17 +470,34 @@ func genObserverReset(p *pkgFiles, out *strings.Builder) {
 func genFilterMatches(p *pkgFiles, out *strings.Builder) {
 	where := "filter.go:filter.matches"
 	fd := p.findFunc("filter.go", "filter", "matches")
-	if fd == nil || len(fd.Body.List) != 1 {
-		problem("%s: not found or not a single return", where)
-		return
-	}
-	r, ok := fd.Body.List[0].(*ast.ReturnStmt)
-	if !ok || len(r.Results) != 1 {
-		problem("%s: not a single return", where)
+	if fd == nil || len(fd.Body.List) == 0 {
+		problem("%s: not found", where)
 		return
 	}
 	env := map[string]string{"mask": "mask", "f.mask": "fmask", "f.without": "fwithout", "f.hasWithout": "hasWithout"}
-	fmt.Fprintf(out, "/-- `filter.matches` -/\ndef filter_matches (fmask fwithout : Mask) (hasWithout : Bool) (mask : Mask) : Bool :=\n    %s\n\n", trBool(r.Results[0], env, where))
+	// `return E`, possibly preceded by guards `if C { return true|false }` (the early-return form of
+	// the same condition): if C then v else …
+	n := len(fd.Body.List)
+	r, ok := fd.Body.List[n-1].(*ast.ReturnStmt)
+	if !ok || len(r.Results) != 1 {
+		problem("%s: does not end in a single return", where)
+		return
+	}
+	text := trBool(r.Results[0], env, where)
+	for i := n - 2; i >= 0; i-- {
+		ifs, ok := fd.Body.List[i].(*ast.IfStmt)
+		if !ok || ifs.Else != nil || ifs.Init != nil || len(ifs.Body.List) != 1 {
+			problem("%s: unexpected statement: %s", where, src(fd.Body.List[i]))
+			return
+		}
+		gr, ok := ifs.Body.List[0].(*ast.ReturnStmt)
+		if !ok || len(gr.Results) != 1 || (src(gr.Results[0]) != "true" && src(gr.Results[0]) != "false") {
+			problem("%s: guard does not return a boolean constant: %s", where, src(ifs))
+			return
+		}
+		text = "(if " + trBool(ifs.Cond, env, where) + " then " + src(gr.Results[0]) + " else " + text + ")"
+	}
+	fmt.Fprintf(out, "/-- `filter.matches` -/\ndef filter_matches (fmask fwithout : Mask) (hasWithout : Bool) (mask : Mask) : Bool :=\n    %s\n\n", text)
 }
 
 // genToTypes translates the index arithmetic of bitMask256.toTypes.
